@@ -59,7 +59,13 @@ func (r *recorder) noteBlock(blk *block.Block, receipts tx.Receipts) string {
 	}
 	txs := blk.Transactions()
 	txl := make([]any, 0, len(receipts))
+	sparse := len(receipts) > 64 // synthetic blocks with thousands of empty receipts: only the non-empty ones are listed
+	at := []int{}
 	for i, rc := range receipts {
+		if sparse && len(rc.Outputs) == 0 {
+			continue
+		}
+		at = append(at, i+1)
 		var id thor.Bytes32
 		var origin thor.Address
 		if i < len(txs) { // the genesis block has a receipt but no transaction
@@ -89,6 +95,9 @@ func (r *recorder) noteBlock(blk *block.Block, receipts tx.Receipts) string {
 		p = r.bname(h.ParentID())
 	}
 	r.facts[name] = map[string]any{"p": p, "n": h.Number(), "t": h.Timestamp(), "txs": txl}
+	if sparse {
+		r.facts[name]["at"] = at
+	}
 	r.factOrder = append(r.factOrder, name)
 	return name
 }
